@@ -60,8 +60,8 @@ def _completion_style(db, g):
     return st
 
 
-def ask_siblings(ctx, db):
-    rid = ctx.rule('C13.ask-siblings', 'SIBLINGS', 'next_sync, next_async and next_future each (a) throw no_more_values_exception on the edge where the coroutine handle reports done, and (b) '
+def ask_siblings(ctx, db, rid_='C13.ask-siblings'):
+    rid = ctx.rule(rid_, 'SIBLINGS', 'next_sync, next_async and next_future each (a) throw no_more_values_exception on the edge where the coroutine handle reports done, and (b) '
                    'write the asker (_caller) before the generator is resumed / its handle is returned, on every other path', floor=3)
     T = htracer(db)
     for name in ASK:
@@ -122,8 +122,8 @@ def ask_siblings(ctx, db):
                trace=fmt_trace(seen_bad[2]) if seen_bad and seen_bad[2] else None)
 
 
-def hooks(ctx, db):
-    rid = ctx.rule('C13.hooks', 'COUNT', 'coroutine hooks of the generator promise, on every path: yield_value(T&)/(T&&) store the address of their argument into _ret; final_suspend stores null into '
+def hooks(ctx, db, rid_='C13.hooks'):
+    rid = ctx.rule(rid_, 'COUNT', 'coroutine hooks of the generator promise, on every path: yield_value(T&)/(T&&) store the address of their argument into _ret; final_suspend stores null into '
                    '_ret; return_void stores true into _done; unhandled_exception stores current_exception() into _exp', floor=4)
     spec = ((P + '::final_suspend', P + '::_ret', lambda w: w.get('const') == 0 or (w.get('rhs') or '') in NULLS, 'final_suspend clears the value pointer'),
             (P + '::return_void', P + '::_done', lambda w: w.get('const') == 1, 'return_void marks the generator done'),
@@ -151,8 +151,8 @@ def hooks(ctx, db):
             ctx.ob(rid, f, f['key'], ok, what, desc=what + ' (violated)')
 
 
-def wake_asker_once(ctx, db):
-    rid = ctx.rule('C13.wake-asker-once', 'COUNT+NO-TOUCH', 'yield_suspend::await_suspend: the argument pointer is cleared and the asker taken by exchange(_caller, nullptr) before the asker is resumed; '
+def wake_asker_once(ctx, db, rid_='C13.wake-asker-once'):
+    rid = ctx.rule(rid_, 'COUNT+NO-TOUCH', 'yield_suspend::await_suspend: the argument pointer is cleared and the asker taken by exchange(_caller, nullptr) before the asker is resumed; '
                    'the asker is resumed exactly once; nothing of the generator promise is read or written after that resume (the consumer may already have supplied the next '
                    'argument, re-entered or destroyed the generator)', floor=1)
     T = htracer(db)
@@ -180,8 +180,8 @@ def wake_asker_once(ctx, db):
            trace=fmt_trace(seen_bad[1]) if seen_bad else None)
 
 
-def unblock_future(ctx, db):
-    rid = ctx.rule('C13.unblock-future', 'COUNT', 'unblock_future resolves the waiting promise exactly once on every path: with drop only on the edge where done() is true, with the stored exception '
+def unblock_future(ctx, db, rid_='C13.unblock-future'):
+    rid = ctx.rule(rid_, 'COUNT', 'unblock_future resolves the waiting promise exactly once on every path: with drop only on the edge where done() is true, with the stored exception '
                    'exactly when one is present (tested before the value), otherwise with the yielded value *_ret', floor=1)
     T = htracer(db)
     fns = db.need(P + '::unblock_future')
@@ -222,6 +222,10 @@ def unblock_future(ctx, db):
                     seen_bad = seen_bad or ('a value is delivered without having excluded end and exception', tr)
                 if '_ret' not in ap:
                     seen_bad = seen_bad or ('the delivered value is not *_ret', tr)
+                elif re.match(r'(move|forward)\(', ap):
+                    # the yielded object is a variable of the generator body (the aggregator even yields a reference to its source's): it is
+                    # handed out by reference / copied into the future, never moved from
+                    seen_bad = seen_bad or ('the yielded object is moved from (%s): the generator body finds its own variable gutted when it continues' % ap, tr)
         if arms != {'end', 'exc', 'val'} and not seen_bad:
             seen_bad = ('unblock_future lost an arm: %s' % sorted(arms), [])
     f0 = fns[0]
@@ -229,8 +233,8 @@ def unblock_future(ctx, db):
            trace=fmt_trace(seen_bad[1]) if seen_bad and seen_bad[1] else None)
 
 
-def sync_block(ctx, db):
-    rid = ctx.rule('C13.sync-block', 'ORDER', 'next_sync: the blocking flag is reset (store false) before the generator is resumed, and the thread waits on it after the resume; unblock_sync stores true '
+def sync_block(ctx, db, rid_='C13.sync-block'):
+    rid = ctx.rule(rid_, 'ORDER', 'next_sync: the blocking flag is reset (store false) before the generator is resumed, and the thread waits on it after the resume; unblock_sync stores true '
                    'and then notifies', floor=2)
     T = htracer(db)
     fns = db.need(P + '::next_sync')
@@ -268,8 +272,8 @@ OBSERVE = ['cocls::generator_iterator::operator*', 'cocls::generator_iterator::o
            'cocls::generator::operator bool', 'cocls::generator::next_awt::await_resume', 'cocls::generator::next_awt::await_ready', 'cocls::generator_iterator::operator==', 'cocls::generator::next']
 
 
-def one_step(ctx, db):
-    rid = ctx.rule('C13.one-step', 'COUNT (interval summaries)', 'every adapter that advances the generator (iterator ++, begin, next_awt::await_suspend / subscribe / operator bool on an unknown state, '
+def one_step(ctx, db, rid_='C13.one-step'):
+    rid = ctx.rule(rid_, 'COUNT (interval summaries)', 'every adapter that advances the generator (iterator ++, begin, next_awt::await_suspend / subscribe / operator bool on an unknown state, '
                    'generator::operator()) triggers exactly one of next_sync / next_async / next_future on every path through its call tree; every adapter that only observes '
                    '(operator*, ->, value, end, done, operator bool, await_resume, await_ready, next) triggers none', floor=10)
     is_ask = lambda it: it.k == 'call' and norm(it.get('callee')) in ASK
@@ -309,10 +313,10 @@ def one_step(ctx, db):
             ctx.ob(rid, f, f['key'], ok, '%s observes without advancing' % name.split('::', 1)[1], desc='%s advances the generator [%d,%d] steps' % (name, a, b))
 
 
-def state_recorded(ctx, db):
+def state_recorded(ctx, db, rid_='C13.step-recorded'):
     """next_awt remembers in _state that the step has been taken; operator bool and operator! use it to decide whether to call the generator.
     Every way of finishing a step must record it, otherwise co_await n followed by if (n) advances the generator twice (every other item is skipped)"""
-    rid = ctx.rule('C13.step-recorded', 'PATHS', 'generator::next_awt::await_resume stores the outcome of the step into _state on every path (the same value it returns): a later '
+    rid = ctx.rule(rid_, 'PATHS', 'generator::next_awt::await_resume stores the outcome of the step into _state on every path (the same value it returns): a later '
                    'conversion to bool of the same next_awt must not advance the generator again', floor=1)
     for f, trs in traces_of(db, 'cocls::generator::next_awt::await_resume', per_instance=False):
         trs = [t for t in trs if live(t)]
@@ -327,10 +331,10 @@ def state_recorded(ctx, db):
         ctx.ob(rid, f, f['key'], bad is None and len(trs) > 0, 'the step taken is recorded' + ('' if not bad else ' -- ' + bad[0]), desc=bad[0] if bad else None, trace=fmt_trace(bad[1]) if bad else None)
 
 
-def postfix_snapshots(ctx, db):
+def postfix_snapshots(ctx, db, rid_='C13.postfix-snapshots-first'):
     """it++ returns the element the iterator stood on.  The generator hands out a reference to the value the body yielded; advancing the
     generator overwrites or destroys that object, so the element has to be copied out before the advance"""
-    rid = ctx.rule('C13.postfix-snapshots-first', 'ORDER', 'generator_iterator::operator++(int): the current element is copied/moved into a local by value before the generator is advanced, no '
+    rid = ctx.rule(rid_, 'ORDER', 'generator_iterator::operator++(int): the current element is copied/moved into a local by value before the generator is advanced, no '
                    'reference into the generator\'s current value is kept across the advance, and that local is what is returned', floor=1)
     T = htracer(db)
     fns = [f for f in db.fns('cocls::generator_iterator::operator++') if len(f['params']) == 1 and 'subscriber' not in (f.get('class_inst') or '')]
